@@ -172,6 +172,8 @@ def _lookup_helper(fn: ast.FunctionDef) -> tuple[int, int, str] | None:
 def applied_args(fn: ast.FunctionDef, lookup: ast.AST) -> list[str] | None:
     """When the looked-up table value is called (`op_fn(left, right)` / `TABLE[type(op)](left, right)`), the argument texts."""
     bound = None
+    if isinstance(lookup, ast.For) and isinstance(lookup.target, ast.Tuple) and len(lookup.target.elts) == 2 and isinstance(lookup.target.elts[1], ast.Name):
+        bound = lookup.target.elts[1].id  # for kind, value in TABLE: if isinstance(op, kind): return value(left, right)
     for w in ast.walk(fn):
         if isinstance(w, ast.NamedExpr) and w.value is lookup:
             bound = w.target.id
@@ -250,6 +252,38 @@ def operator_table(mod, fn: ast.FunctionDef):
             return {norm(k).split(".")[-1]: norm(v) for k, v in zip(d.keys, d.values)}, default, n
         if tbl is not None and isinstance(mod.assigns.get(tbl), (ast.Tuple, ast.List)) and all(isinstance(e, (ast.Tuple, ast.List)) and len(e.elts) == 2 for e in mod.assigns[tbl].elts):
             return {norm(e.elts[0]).split(".")[-1]: norm(e.elts[1]) for e in mod.assigns[tbl].elts}, default, n
+    # (c') a loop over a module-level table of (kind, value) pairs: `for K, V in TABLE: if isinstance(op, K): return V(..)`, closed by the refusal
+    body_ = [s_ for s_ in fn.body if not (isinstance(s_, ast.Expr) and isinstance(s_.value, ast.Constant))]
+    for i, lp in enumerate(body_):
+        if not (isinstance(lp, ast.For) and isinstance(lp.target, ast.Tuple) and len(lp.target.elts) == 2 and all(isinstance(e, ast.Name) for e in lp.target.elts)):
+            continue
+        src = lp.iter.func.value if isinstance(lp.iter, ast.Call) and isinstance(lp.iter.func, ast.Attribute) and lp.iter.func.attr == "items" and not lp.iter.args else lp.iter
+        if not (isinstance(src, ast.Name) and src.id in mod.assigns):
+            continue
+        kvar, vvar = lp.target.elts[0].id, lp.target.elts[1].id
+        if not (len(lp.body) == 1 and isinstance(lp.body[0], ast.If) and not lp.body[0].orelse):
+            continue
+        t = lp.body[0].test
+        if not (isinstance(t, ast.Call) and norm(t.func) == "isinstance" and len(t.args) == 2 and norm(t.args[1]) == kvar):
+            continue
+        inner = lp.body[0].body
+        leaves = bool(inner) and isinstance(inner[-1], (ast.Return, ast.Break))
+        uses_v = any(isinstance(x, ast.Name) and x.id == vvar for s_ in inner for x in ast.walk(s_))
+        if not (leaves and uses_v):
+            continue
+        tblv = mod.assigns[src.id]
+        if isinstance(tblv, ast.Dict):
+            entries = {norm(k).split(".")[-1]: norm(v) for k, v in zip(tblv.keys, tblv.values)}
+        elif isinstance(tblv, (ast.Tuple, ast.List)) and all(isinstance(e, (ast.Tuple, ast.List)) and len(e.elts) == 2 for e in tblv.elts):
+            entries = {norm(e.elts[0]).split(".")[-1]: norm(e.elts[1]) for e in tblv.elts}
+        else:
+            continue
+        if isinstance(inner[-1], ast.Return):
+            rest = lp.orelse or body_[i + 1:]
+            default = classify_body(rest) if rest else "none"
+        else:
+            default = classify_body(lp.orelse) if lp.orelse else "none"
+        return entries, default, lp
     # (b') a sequence of guard statements `if isinstance(op, K): return E` closed by the refusal
     body = [s_ for s_ in fn.body if not (isinstance(s_, ast.Expr) and isinstance(s_.value, ast.Constant))]
     guards = [(i, s_) for i, s_ in enumerate(body) if isinstance(s_, ast.If) and not s_.orelse and isinstance_kinds(s_.test) and len(s_.body) == 1 and isinstance(s_.body[0], (ast.Return, ast.Assign))]
